@@ -384,7 +384,7 @@ class Check(PropertyCheck):
     prop = "C31"
     design_ref = "§5 C31"
     level_text = (
-        "41 Lean theorems, each over ALL call histories (any interleaving of encoding.decode/encode on arbitrary bodies and "
+        "49 Lean theorems, each over ALL call histories (any interleaving of encoding.decode/encode on arbitrary bodies and "
         "of set_content/get_content/Message.decode/Message.encode/header mutations on two messages sharing the one cache "
         "entry), by induction on the op list via `stepWith_cache` (what one op can do to the cache) and the invariant "
         "'the entry (e,c,err,d) has a compressed coding and the uncached decoder maps e to d'. "
@@ -430,11 +430,37 @@ class Check(PropertyCheck):
         "raw_decodes_to_content_lenient/_partial/_partial_hit/_counterexample(_own_shortcut) / [raw-ref]; Content-Length without TE -> "
         "content_length_eq_raw_len_without_TE, content_length_invariant, trailers_irrelevant / [content-length]; decode then re-encode "
         "-> decode_encode_preserves(_interleaved,_inv), decode_idempotent(_any_coding), encode_after_encode / [decode][decode-encode]; "
-        "no result depends on earlier calls -> decode_transparent, get_content_transparent, get_content_history_independent, "
-        "encode_semantically_transparent, message_ops_isolated (+ the `content` read-back tie) / [hist][hist-enc][hist-raw]; quantifier "
+        "no result depends on earlier calls -> AT FULL (byte) STRENGTH for decode results and content: decode_transparent, "
+        "get_content_transparent, get_content_history_independent, message_ops_isolated (+ the `content` read-back tie) / [hist]; "
+        "for encoding.encode results and the raw body an assignment stores the byte-level reading (defs EncodeHistoryIndependent, "
+        "StoredRawHistoryIndependent) is FALSE BY DESIGN of the cache (encode_history_independent_counterexample, "
+        "stored_raw_history_independent_counterexample) and the clause is read SEMANTICALLY: encode_history_independent_partial "
+        "(= encode_semantically_transparent: results equal up to what they decode to), raw_decodes_to_content_lenient, plus the "
+        "byte-level partials encode_bytes_history_independent_partial(_hit) and stored_raw_history_independent_partial_hit "
+        "(byte-identical unless the call is a cache hit on a non-canonical entry; decidable guards nonCanonicalHit / canonHist) / "
+        "[hist-enc][hist-raw], which compare by reference-decoding; quantifier "
         "(empty bodies, unknown / mixed-case codings, invalid data, arbitrary call sequences) -> own_decoders_accept_empty, "
         "unknown_coding_removed, asciiLower in every statement, verr outcomes in decode_transparent, forall ops / generator pools.")
     level_note = (
+        "READING OF SENTENCE 5 ('no result ever depends on which bodies were encoded or decoded earlier'): byte-exact for "
+        "encoding.decode results, get_content, and every message field other than the raw body; SEMANTIC (equal up to what the "
+        "bytes decode to) for encoding.encode results and for the raw body stored by set_content / Message.encode. Byte-level "
+        "dependence there is the cache's documented purpose (encoding.py: `flow.request.content = flow.request.content.replace("
+        "b'foo', b'bar')` must not re-encode when nothing changed - the peer's original bytes are kept), and the statement's own "
+        "sentence 2 speaks of the raw body DECODING to the content, i.e. of meaning, not bytes. The full byte-level statements are "
+        "kept as defs (EncodeHistoryIndependent, StoredRawHistoryIndependent) with counterexamples and guarded byte-level partials. "
+        "Two subclasses: (i) the kept bytes are ALSO rejected by strict reference decoders = finding F-C31a (recorded, classifier "
+        "`_lenient`); (ii) the kept bytes are a VALID stream that merely differs from the canonical one (peer used another "
+        "compression level / another valid encoding): covered by the semantic theorems and by the oracle clauses [hist-enc] / "
+        "[hist-raw], which reference-decode both variants and demand equal meaning - it never fails an oracle clause and the "
+        "statement's observable (content via independent decoders) IS history independent, so it is deliberately NOT recorded as "
+        "a second finding in known/C31.json. The Lean guards are tied: driver op `guard` evaluates encHit / lenientHit / "
+        "nonCanonicalHit in the pre-op cache of every assignment and encode (errors strict) and the harness compares them with "
+        "'the real code made no codec call', with the classifier `_lenient` (L) and with 'the hit bytes differ from the uncached "
+        "encoder's' (N) - lenientHit_eq_with / nonCanonicalHit_eq_with; strictOp/strictHist/canonOp/canonHist are the history "
+        "forms of the same guards (proved to imply them, not separately executed). get_content_pure_on_message and "
+        "trailers_irrelevant(_history) hold by the model's SHAPE and mean something for mitmproxy only through the tie (message "
+        "state incl. trailers/version compared after every op). "
         "assumed, not proved: the compression LIBRARIES. Since round 5 two forms: the abstract `Codecs` parameter (laws below) "
         "kept for all theorems, and its instance `ofLib L P` where only `Lib` (zlib/brotli/zstd: total compress, the decoder call "
         "the wrapper makes, raw inflation; laws: decompress(compress d) = d, decompress([]) = d => d = []) and `PyReg` (the codecs "
@@ -1037,6 +1063,26 @@ class Check(PropertyCheck):
         self.known_selftest()
 
     # ---------------- model tie ----------------
+    def _guard(self, case, obs, k):
+        """tie of the Lean guards: before an assignment / encoding.encode with errors 'strict' under a non-identity coding
+        the driver evaluates, in its pre-op cache, whether the encode is a hit (on which bytes), `lenientHit` (given the
+        strict reference decoder's verdict on the entry's bytes) and `nonCanonicalHit` (given the uncached encoder's result).
+        Expected: hit = the real code made no codec call; L = exactly the F-C31a classifier `_lenient`; N = hit on bytes
+        other than the uncached encoder's."""
+        op, r = case["ops"][k], obs["ops"][k]
+        if op["o"] not in ("set", "menc", "enc") or not r["need"].startswith("E:"): return None
+        _, nh, eh, dh = r["need"].split(":")
+        if unhx(eh) != b"strict": return None
+        cb = r["cache_before"]
+        refx = "err"
+        if cb != "none" and not cb.startswith("weird"):
+            d = ref_decode(unhx(nh).decode("ascii"), unhx(cb.split(":")[0]))
+            if d is not None: refx = "ok:" + hx(d)
+        hit = not r["called"]
+        x = cb.split(":")[0] if hit else "miss"
+        exp = "H:%s L:%d N:%d" % (x, 1 if self._lenient(case, obs, k) is not None else 0, 1 if hit and r["fresh"] != "ok:" + x else 0)
+        return f"guard {dh} {nh} {eh} {refx} {r['fresh']}", exp
+
     def model_lines(self, case):
         if "own" in case:
             o = _own(case)
@@ -1044,8 +1090,10 @@ class Check(PropertyCheck):
         key = json.dumps(case, sort_keys=True)
         obs = self._memo[1] if self._memo[0] == key else self.impl(case)
         lines = ["reset"]
-        for op, r in zip(case["ops"], obs["ops"]):
+        for k, (op, r) in enumerate(zip(case["ops"], obs["ops"])):
             o, f = op["o"], r["fresh"]
+            g = self._guard(case, obs, k)
+            if g: lines.append(g[0])
             # value modes `last` / `rawof j` are resolved by the MODEL (driver session), not copied from the real run;
             # a wrong prediction shows in the compared `need` (carries the data) and message state
             mode = op.get("m", "val")
@@ -1077,7 +1125,9 @@ class Check(PropertyCheck):
     def impl_view(self, case, obs):
         if "own" in case: return [obs["own"]]
         out = ["ok"]
-        for r in obs["ops"]:
+        for k, r in enumerate(obs["ops"]):
+            g = self._guard(case, obs, k)
+            if g: out.append(g[1])
             out += [" ".join([r["res"], r["need"], r["cache"], r["after"][0], r["after"][1]]), r["rb"][0], r["rb"][1]]
         return out
 
